@@ -170,7 +170,8 @@ def run(R, tier):
 def _latch(R, P, u):
     """ResponseUnit keeps its first error and stops writing (so a failed write cannot be overwritten by a later success)."""
     ru_adt = "scpi::parser::response::ResponseUnit"
-    eng = fdai.Engine(P, u, inline=lambda n, r: False, models={})
+    from . import emit as _E0
+    eng = fdai.Engine(P, u, inline=_E0._helpers_of_response_module(P), models={})
     fields = [f["name"] for f in u.adts[ru_adt]["variants"][0]["fields"]]
     for meth in ("data", "header"):
         b = u.body("scpi::parser::response::ResponseUnit::" + meth)
